@@ -110,6 +110,9 @@ func (sc *shapeChecker) checkResult(v Val, g *smt.Term, nested bool) {
 	if sc.opts.Message && known && !nested {
 		sc.checkMessage(v, g, idx)
 	}
+	if sc.opts.ResultShape {
+		sc.checkSiblingArrays(v, g, 0)
+	}
 	tr, ok := getField(v, "trace")
 	elems, isArr := elemsOfArray(tr)
 	if !ok || !isArr {
@@ -145,6 +148,94 @@ func (sc *shapeChecker) checkResult(v Val, g *smt.Term, nested bool) {
 				}
 			}
 		}
+	}
+}
+
+// checkSiblingArrays: the report builder names the elements of an array child <parent>_<index>,
+// without the array's key. Ids stay unique exactly as long as no typed node has two arrays of
+// typed children that can be non-empty together; this is the precondition under which the id
+// walk is verified (gosym VerifC12Ids), checked here on every node the module can produce.
+func (sc *shapeChecker) checkSiblingArrays(v Val, g *smt.Term, depth int) {
+	o, ok := v.(*SObj)
+	if !ok || depth > 8 {
+		if c, isC := v.(ast.Value); isC && depth <= 8 {
+			sc.checkSiblingArraysConcrete(c, g, depth)
+		}
+		return
+	}
+	if _, typed := o.Fields["@type"]; !typed {
+		return
+	}
+	type arr struct {
+		key      string
+		nonEmpty *smt.Term
+	}
+	var arrays []arr
+	for _, k := range o.Keys {
+		for _, alt := range o.Fields[k] {
+			ga := smt.And(g, alt.G)
+			if elems, isArr := elemsOfArray(alt.V); isArr {
+				ne := smt.False
+				for _, e := range elems {
+					if hasTypeField(e.V) {
+						ne = smt.Or(ne, smt.And(ga, e.G))
+						sc.checkSiblingArrays(e.V, smt.And(ga, e.G), depth+1)
+					}
+				}
+				if !ne.IsFalse() {
+					arrays = append(arrays, arr{k, ne})
+				}
+			} else {
+				sc.checkSiblingArrays(alt.V, ga, depth+1)
+			}
+		}
+	}
+	for i := 0; i < len(arrays); i++ {
+		for j := i + 1; j < len(arrays); j++ {
+			if arrays[i].key == arrays[j].key {
+				continue
+			}
+			sc.fail("C12.ids-unique.sibling-arrays", smt.And(arrays[i].nonEmpty, arrays[j].nonEmpty),
+				fmt.Sprintf("a node carries two arrays of nodes (%s, %s): their elements get the same @id", arrays[i].key, arrays[j].key))
+		}
+	}
+}
+
+func hasTypeField(v Val) bool {
+	switch x := v.(type) {
+	case *SObj:
+		_, ok := x.Fields["@type"]
+		return ok
+	case ast.Object:
+		return x.Get(ast.StringTerm("@type")) != nil
+	}
+	return false
+}
+
+func (sc *shapeChecker) checkSiblingArraysConcrete(c ast.Value, g *smt.Term, depth int) {
+	obj, ok := c.(ast.Object)
+	if !ok || depth > 8 || obj.Get(ast.StringTerm("@type")) == nil {
+		return
+	}
+	var keys []string
+	obj.Foreach(func(k, v *ast.Term) {
+		if arr, isArr := v.Value.(*ast.Array); isArr {
+			typed := false
+			arr.Foreach(func(e *ast.Term) {
+				if hasTypeField(e.Value) {
+					typed = true
+					sc.checkSiblingArraysConcrete(e.Value, g, depth+1)
+				}
+			})
+			if typed {
+				keys = append(keys, k.Value.String())
+			}
+		} else {
+			sc.checkSiblingArraysConcrete(v.Value, g, depth+1)
+		}
+	})
+	if len(keys) > 1 {
+		sc.fail("C12.ids-unique.sibling-arrays", g, fmt.Sprintf("a node carries two arrays of nodes (%s): their elements get the same @id", strings.Join(keys, ", ")))
 	}
 }
 
@@ -197,31 +288,77 @@ func (sc *shapeChecker) checkMessage(v Val, g *smt.Term, node int) {
 		return
 	}
 	phs := placeholderRe.FindAllStringSubmatch(val.Message, -1)
-	if len(phs) != 1 {
+	if len(phs) == 0 {
 		return
 	}
-	pred := 0
-	fmt.Sscan(phs[0][1], &pred)
+	preds := placeholderPreds(phs)
 	bad := smt.False
-	for s, sub := range sc.g.Subsets {
-		var want string
-		switch len(sub) {
-		case 0:
-			want = strings.Replace(shownMessage(val.Message), phs[0][0], "null", 1)
-		case 1:
-			t, isScalar := scalarText(sc.g.Pool[sub[0]].V)
-			if !isScalar {
-				continue // references: undocumented
-			}
-			want = strings.Replace(shownMessage(val.Message), phs[0][0], t, 1)
-		default:
-			continue // several values: undocumented
+	// every combination of value sets of the properties the message mentions
+	combo := make([]int, len(preds))
+	for {
+		subs := map[int][]int{}
+		guard := smt.True
+		for k, p := range preds {
+			subs[p] = sc.g.Subsets[combo[k]]
+			guard = smt.And(guard, sc.g.selIs(node, p, combo[k]))
 		}
-		if want != string(ms) {
-			bad = smt.Or(bad, sc.g.selIs(node, pred, s))
+		if want, specified := expectedMessage(val.Message, phs, subs, sc.g.Pool); specified && want != string(ms) {
+			bad = smt.Or(bad, guard)
+		}
+		k := 0
+		for ; k < len(combo); k++ {
+			combo[k]++
+			if combo[k] < len(sc.g.Subsets) {
+				break
+			}
+			combo[k] = 0
+		}
+		if k == len(combo) {
+			break
 		}
 	}
 	sc.fail("C13.message-substitution", smt.And(g, bad), fmt.Sprintf("message %q for n%d", string(ms), node+1))
+}
+
+// placeholderPreds lists the distinct property indices of the placeholders, in order of first use.
+func placeholderPreds(phs [][]string) []int {
+	var preds []int
+	seen := map[int]bool{}
+	for _, ph := range phs {
+		p := 0
+		fmt.Sscan(ph[1], &p)
+		if !seen[p] {
+			seen[p] = true
+			preds = append(preds, p)
+		}
+	}
+	return preds
+}
+
+// expectedMessage: the message as written, double quotes shown as single quotes, every placeholder
+// occurrence replaced by the node's value for that property (null when absent). Unspecified when a
+// mentioned property has several values or a node reference.
+func expectedMessage(message string, phs [][]string, subs map[int][]int, pool []PoolVal) (string, bool) {
+	want := shownMessage(message)
+	for _, ph := range phs {
+		p := 0
+		fmt.Sscan(ph[1], &p)
+		sub := subs[p]
+		text := "null"
+		switch len(sub) {
+		case 0:
+		case 1:
+			t, isScalar := scalarText(pool[sub[0]].V)
+			if !isScalar {
+				return "", false
+			}
+			text = t
+		default:
+			return "", false
+		}
+		want = strings.Replace(want, shownMessage(ph[0]), text, 1)
+	}
+	return want, true
 }
 
 func shownMessage(m string) string { return strings.ReplaceAll(m, "\"", "'") }
@@ -408,21 +545,12 @@ func NativeShapeProblems(report string, p Program, g *Graph, m map[string]uint64
 		}
 		if opts.Message && isNode && !nested {
 			if v, ok := names[name]; ok && v.Message != "" {
-				if phs := placeholderRe.FindAllStringSubmatch(v.Message, -1); len(phs) == 1 {
-					pred := 0
-					fmt.Sscan(phs[0][1], &pred)
-					sub := g.Subsets[int(smt.Eval(g.Sel[node][pred], m, map[*smt.Term]uint64{}))%len(g.Subsets)]
-					want, specified := "", true
-					switch len(sub) {
-					case 0:
-						want = strings.Replace(shownMessage(v.Message), phs[0][0], "null", 1)
-					case 1:
-						t, isScalar := scalarText(g.Pool[sub[0]].V)
-						specified = isScalar
-						want = strings.Replace(shownMessage(v.Message), phs[0][0], t, 1)
-					default:
-						specified = false
+				if phs := placeholderRe.FindAllStringSubmatch(v.Message, -1); len(phs) > 0 {
+					subs := map[int][]int{}
+					for _, pred := range placeholderPreds(phs) {
+						subs[pred] = g.Subsets[int(smt.Eval(g.Sel[node][pred], m, map[*smt.Term]uint64{}))%len(g.Subsets)]
 					}
+					want, specified := expectedMessage(v.Message, phs, subs, g.Pool)
 					if got, _ := r["resultMessage"].(string); specified && got != want {
 						problems = append(problems, "C13.message-substitution")
 					}
@@ -454,6 +582,9 @@ func NativeShapeProblems(report string, p Program, g *Graph, m map[string]uint64
 			}
 		}
 	}
+	if opts.ResultShape && duplicateIDs(any(rn), map[string]bool{}) {
+		problems = append(problems, "C12.ids-unique.sibling-arrays")
+	}
 	results, _ := rn["result"].([]any)
 	for _, r := range results {
 		if rm, ok := r.(map[string]any); ok {
@@ -462,6 +593,36 @@ func NativeShapeProblems(report string, p Program, g *Graph, m map[string]uint64
 	}
 	sort.Strings(problems)
 	return dedupe(problems)
+}
+
+// duplicateIDs walks a decoded report and reports whether two nodes carry the same @id.
+func duplicateIDs(x any, seen map[string]bool) bool {
+	switch n := x.(type) {
+	case map[string]any:
+		if _, typed := n["@type"]; typed {
+			if id, ok := n["@id"].(string); ok {
+				if seen[id] {
+					return true
+				}
+				seen[id] = true
+			}
+		}
+		for k, e := range n {
+			if k == "@context" {
+				continue
+			}
+			if duplicateIDs(e, seen) {
+				return true
+			}
+		}
+	case []any:
+		for _, e := range n {
+			if duplicateIDs(e, seen) {
+				return true
+			}
+		}
+	}
+	return false
 }
 
 func sameLocation(got, want map[string]any) bool {
@@ -544,6 +705,9 @@ func ReplayShapeProblems(report string, validationNames []string, expectedLocati
 		}
 	}
 	rn := enc[0].(map[string]any)
+	if checkShape && duplicateIDs(any(rn), map[string]bool{}) {
+		problems = append(problems, "C12.ids-unique.sibling-arrays")
+	}
 	results, _ := rn["result"].([]any)
 	for _, r := range results {
 		if rm, ok := r.(map[string]any); ok {
